@@ -34,11 +34,61 @@ class _State:
 S = _State()
 
 
+class _FakeRandom:
+    """np.random replaced during a replay: the k-th U[0,1) draw is the verifier's model value draw:k
+    (draws the model does not mention come from the seeded generator)"""
+
+    def __init__(self):
+        self.k = 0
+        self.log = []
+
+    def one(self):
+        v = S.inputs.get("draw:%d" % self.k)
+        self.k += 1
+        x = float(_num(v, S.rng.random()))
+        x = min(max(x, 0.0), 1.0 - 1e-16)
+        self.log.append(x)
+        return x
+
+    def shaped(self, size):
+        if size is None or size == ():
+            return self.one()
+        n = int(np.prod(size))
+        return np.array([self.one() for _ in range(n)]).reshape(size)
+
+    def random_sample(self, size=None):
+        return self.shaped(size)
+
+    random = random_sample
+
+    def rand(self, *shape):
+        return self.shaped(shape if shape else None)
+
+    def uniform(self, low=0.0, high=1.0, size=None):
+        low, high = np.asarray(low, dtype=float), np.asarray(high, dtype=float)
+        if size is None and (low.ndim or high.ndim):
+            size = np.broadcast(low, high).shape
+        return low + self.shaped(size) * (high - low)
+
+
+_REAL_RANDOM = {}
+
+
+def _install_fake_random():
+    fr = _FakeRandom()
+    for n in ("random_sample", "random", "rand", "uniform"):
+        if n not in _REAL_RANDOM:
+            _REAL_RANDOM[n] = getattr(np.random, n)
+        setattr(np.random, n, getattr(fr, n))
+    S.fake_random = fr
+
+
 def _reset(inputs, seed=0):
     S.inputs = dict(inputs)
     S.results = []
     S.missing = []
     S.rng = random.Random(seed)
+    _install_fake_random()
 
 
 def _num(v, default):
@@ -334,6 +384,14 @@ def use_stub(target, stub_fn):
 
 def use_lib_stub(names, stub_fn):
     raise NotReplayable("library stubs are symbolic-only")
+
+
+def draws():
+    return list(S.fake_random.log)
+
+
+def call_real(fn, *a, **k):
+    return fn(*a, **k)
 
 
 def set_unroll(n):
